@@ -117,6 +117,7 @@ def build(thorough):
     else:
         ob('roundtrip_space', RT, 'rt_space', {})
     ob('roundtrip_of_algebra_result', 'C18_algprint.py', 'rt_algebra', {})
+    ob('let_references_resolved', 'C18_let.py', 'let_refs', {})
     ob('finding_allometry_roundtrip', RT, 'rt_statement', dict(VH_KIND='allometry', VH_REGION='allometry_roundtrip'))
     ob('finding_cov_wildcard_parse', RT, 'rt_statement', dict(VH_KIND='covariate', VH_REGION='cov_wildcard_parse'))
 
@@ -128,7 +129,8 @@ def build(thorough):
           ('parts_ok', SETS, dict(VH_N=3)), ('subsets_ok', SETS, dict(VH_N=3)), ('nonempty_ok', SETS, dict(VH_N=3)),
           ('search_ok', SEARCH, dict(VH_ALGO='reduced_stepwise', VH_UNIVERSE='u6')),
           ('allowed_ok', SEARCH, dict(VH_UNIVERSE='u6')), ('iiv_ok', SEARCH, dict(VH_ALGO='block_structure', VH_NKEEP=1)),
-          ('rt_statement', RT, dict(VH_KIND='covariate')), ('rt_space', RT, {}), ('rt_algebra', 'C18_algprint.py', {})]
+          ('rt_statement', RT, dict(VH_KIND='covariate')), ('rt_space', RT, {}), ('rt_algebra', 'C18_algprint.py', {}),
+          ('let_refs', 'C18_let.py', {})]
     for func, file, env in tw:
         ob(f'{func}__twin', file, func + '__twin', env, timeout=120, kind='twin')
     # longest first
